@@ -1084,7 +1084,7 @@ EXTRACTORS["C10"] = EXTRACTORS["C10"] + [GEN_SRC[n] for n in ("SrcMyersTbState",
 GEN_SRC.update({n: gen_src(n) for n in ("SrcMyersTbMask", "SrcMyersTbShort2")})
 EXTRACTORS["C10"] = EXTRACTORS["C10"] + [GEN_SRC[n] for n in ("SrcMyersTbMask", "SrcMyersTbShort2")]
 GEN_SRC.update({n: gen_src(n) for n in ("SrcMyersTbLoop",)})
-SOFT_TB_LOOP = soft_modules(["RbV.Thm.GenSrcMyersTbLoop"], "the translated `_traceback_at` no longer equals the model's loop `Handler.loop` "
+SOFT_TB_LOOP = soft_modules(["RbV.Thm.GenSrcMyersTbLoop", "RbV.Thm.GenSrcMyersTbSound"], "the translated `_traceback_at` no longer equals the model's loop `Handler.loop` "
                             "pass by pass (the order of the Subst / Ins / Del tests is not determined by C10: which of several optimal "
                             "paths is reported is decided by the behavioural tie, tags `tb-state-drift`)")
 EXTRACTORS["C10"] = EXTRACTORS["C10"] + [GEN_SRC[n] for n in ("SrcMyersTbLoop",)] + [SOFT_TB_LOOP]
